@@ -112,6 +112,61 @@ def putArray (k : Kind) (e : Endian) (t : Ty) (vs : List Nat) : List UInt8 :=
     if arraySwap k e (arithT t) then vs.flatMap (putScalar k e t)
     else (arrayMem t vs).take (arrayCount k vs.length (sizeofT t))
 
+/-! ## the writers with the caller's memory made explicit
+
+The functions above are value-level: a write maps (order, value) to bytes and cannot say whether the real operator
+leaves its `const T&` / `const Array<T>&` argument alone.  Here the argument is a piece of memory (its object
+representation) and the generic `operator<<(const T& x)` is the list of memory steps the translator found in its
+body (`Gen.Stream.WStmt`: temporary copy, `swapBytes` on the temporary or in place on the argument, `write` from either).
+`runW` executes them; its result is (bytes handed to `write`, the argument's memory afterwards).  The driver's `w`, `wa`,
+`wv` run these and report the argument afterwards, as the harness does on the real object.  Theorems
+`C16.scalar_write_mem` / `C16.array_write_mem`: the bytes are those of `putScalar` / `putArray` and the argument is
+what it was. -/
+
+structure WMem where
+  arg : List UInt8
+  tmp : List UInt8 := []
+  out : List UInt8 := []
+
+def execW (swap : Bool) (m : WMem) : WStmt → WMem
+  | .copyTmp => { m with tmp := m.arg }
+  | .swapTmp => { m with tmp := if swap then swapBytes m.tmp else m.tmp }
+  | .swapArg => { m with arg := if swap then swapBytes m.arg else m.arg }
+  | .writeTmp => { m with out := m.out ++ m.tmp }
+  | .writeArg => { m with out := m.out ++ m.arg }
+
+/-- (bytes written, the argument's memory afterwards) -/
+def runW (swap : Bool) (path : List WStmt) (x : List UInt8) : List UInt8 × List UInt8 :=
+  let m := path.foldl (execW swap) { arg := x }
+  (m.out, m.arg)
+
+def scalarPath : Kind → List WStmt
+  | .sb => sbPath
+  | .file => filePath
+  | .sock => sockPath
+
+/-- `stream << x` on the object `x` of type `t` holding `v`.  StreamBuffer's `bool`/`byte`/`char`/`signed char`
+    overloads only read `x` (`byte(x ? 1 : 0)`, `*(byte*)&x`; bodies shape-checked by the translator). -/
+def putScalarMem (k : Kind) (e : Endian) (t : Ty) (v : Nat) : List UInt8 × List UInt8 :=
+  match k, t with
+  | .sb, .b => (putScalar .sb e .b v, objRep (sizeofT .b) v)
+  | .sb, .u8 => (putScalar .sb e .u8 v, objRep (sizeofT .u8) v)
+  | .sb, .ch => (putScalar .sb e .ch v, objRep (sizeofT .ch) v)
+  | .sb, .i8 => (putScalar .sb e .i8 v, objRep (sizeofT .i8) v)
+  | _, _ => runW (scalarSwap k e) (scalarPath k) (objRep (sizeofT t) v)
+
+/-- `stream << Array<T>` on the array whose storage is `arrayMem t vs`: the item-by-item branch hands every element
+    *itself* (`foreach(const T& y, x) *this << y` — a reference into the storage) to the scalar operator, so whatever
+    that does to its argument happens to the caller's array; the block branch and the `Array<byte>` overload only
+    read the storage (`write(&x[0], COUNT)`). -/
+def putArrayMem (k : Kind) (e : Endian) (t : Ty) (vs : List Nat) : List UInt8 × List UInt8 :=
+  match t with
+  | .u8 => (vs.map UInt8.ofNat, arrayMem .u8 vs)
+  | _ =>
+    if arraySwap k e (arithT t) then
+      ((vs.map (putScalarMem k e t)).flatMap (·.1), (vs.map (putScalarMem k e t)).flatMap (·.2))
+    else ((arrayMem t vs).take (arrayCount k vs.length (sizeofT t)), arrayMem t vs)
+
 /-- `stream << Array<String>`: the item-by-item branch sends every string through `operator<<(const String&)`
     (its bytes, whatever the byte order); the one-block branch would write the String *objects'* memory
     (pointers, uninitialised bytes), which has no model: `none`.  Theorem `C16.string_array_canonical` shows the
